@@ -16,6 +16,7 @@ import (
 	"github.com/tencent/goom/internal/unexports2"
 	"github.com/tencent/goom/verifharness/hxlib"
 	"github.com/tencent/goom/verifharness/zoo/fnzoo"
+	"github.com/tencent/goom/verifharness/zoo/fnzoo2"
 )
 
 func init() { register("c02", c02) }
@@ -121,6 +122,12 @@ func c02(args []string) int {
 	mM2, _ := reflect.TypeOf(tt).MethodByName("M2")
 	um1, e1 := unexports2.FindFuncByName("github.com/tencent/goom/verifharness/zoo/fnzoo.(*T).um1")
 	um2, e2 := unexports2.FindFuncByName("github.com/tencent/goom/verifharness/zoo/fnzoo.(*T).um2")
+	uf1a, e3 := unexports2.FindFuncByName("github.com/tencent/goom/verifharness/zoo/fnzoo.uf1")
+	uf1b, e4 := unexports2.FindFuncByName("github.com/tencent/goom/verifharness/zoo/fnzoo2.uf1")
+	if e3 != nil || e4 != nil {
+		fmt.Fprintln(os.Stderr, "cannot resolve the unexported functions uf1", e3, e4)
+		return 2
+	}
 	if e1 != nil || e2 != nil {
 		fmt.Fprintln(os.Stderr, "cannot resolve the unexported methods of fnzoo.T", e1, e2)
 		return 2
@@ -138,6 +145,13 @@ func c02(args []string) int {
 		{"T.um2", um2, func(b *mocker.Builder) mocker.ExportedMocker {
 			return c02Adapt(b.Struct(&fnzoo.T{}).ExportMethod("um2"))
 		}, tt.CallUm2, mkcbs(true), -7301, false},
+		// two unexported functions with the SAME name in different packages, looked up by name
+		{"fnzoo.uf1", uf1a, func(b *mocker.Builder) mocker.ExportedMocker {
+			return c12AdaptF(b.Pkg("github.com/tencent/goom/verifharness/zoo/fnzoo").ExportFunc("uf1"))
+		}, fnzoo.CallUf1, mkcbs(false), -7400, false},
+		{"fnzoo2.uf1", uf1b, func(b *mocker.Builder) mocker.ExportedMocker {
+			return c12AdaptF(b.Pkg("github.com/tencent/goom/verifharness/zoo/fnzoo2").ExportFunc("uf1"))
+		}, fnzoo2.CallUf1, mkcbs(false), -7450, false},
 	}
 	type phT struct {
 		entry uintptr
